@@ -6,6 +6,8 @@ import EaselModel.Stats.HistCompose
 import EaselModel.Stats.FitReal
 import EaselModel.Stats.GumbelConcave
 import EaselModel.Stats.MinLemmas
+import EaselModel.Stats.MinReal
+import EaselModel.Stats.MinCounter
 /-! # C11 — property theorems (statements + glue only; lemmas live in `EaselModel/Stats/*`)
 
 Histogram half. `Hist` is the line-by-line model of `esl_histogram.c` (`EaselModel/Stats/Histogram.lean`), run bit-for-bit
@@ -298,6 +300,125 @@ theorem gamma_engine_post {α : Type} [Num α] (xbar logxbar : α) (st : St) (ps
     (st = .ok → ∃ tau oldtau fx oldfx : α, ps = #[tau / xbar, tau] ∧ dcompare oldtau tau (1e-6 : α) (1e-6 : α) = true ∧
         dcompare oldfx fx (1e-6 : α) (1e-6 : α) = true) :=
   gamFittingEngine_post xbar logxbar st ps h
+
+
+/-! ## The solvers themselves: `esl_rootfinder.c` and the line searches of `esl_minimizer.c` (models `Rootfinder.lean`, `Minimizer.lean`;
+driven bit-for-bit against the C functions — including the static `bracket()` and `brent()` — on shared objective families) -/
+
+/-- `esl_root_Bisection`, every function, configuration and numeric class (binary64 included): total — at most `max_iter - R->iter` rounds —
+    with status eslOK, eslEINVAL (`f(xl)·f(xr) ≥ 0`; `*ret_x = 0`, counter untouched) or eslENOHALT (`*ret_x = 0`, `R->iter = max_iter + 1`). -/
+theorem bisection_total_documented_status {α : Type} [Num α] (cfg : RootCfg α) (f : α → α) (iter0 : Int) (xl xr : α) :
+    let r := rootBisection cfg f iter0 xl xr
+    r.st = .ok ∨ (r.st = .einval ∧ r.x = Num.zero ∧ r.iter = iter0 ∧ Num.geb (f xl * f xr) Num.zero = true) ∨
+    (r.st = .enohalt ∧ r.x = Num.zero ∧ r.iter = iter0 + (cfg.maxIter - iter0).toNat + 1) :=
+  rootBisection_status cfg f iter0 xl xr
+
+/-- **Bisection keeps the root bracketed and halves the bracket** (ℝ; any function, continuous or not). From `xl < xr`: eslEINVAL iff
+    `f(xl)·f(xr) ≥ 0`; otherwise the final `R->xl < R->xr` lie inside `[xl, xr]`, still satisfy `f(R->xl)·f(R->xr) < 0`, and after `j` narrowing
+    steps `(R->xr - R->xl)·2^j = xr - xl`; eslOK ⇒ `*ret_x` is the midpoint of that bracket and the stopping rule held; eslENOHALT ⇒ all
+    `max_iter - iter` rounds were used. -/
+theorem bisection_keeps_root_bracketed (cfg : RootCfg ℝ) (f : ℝ → ℝ) (iter0 : Int) (xl xr : ℝ) (hlt : xl < xr) :
+    let r := rootBisection cfg f iter0 xl xr
+    (0 ≤ f xl * f xr ∧ r.st = .einval) ∨
+    (f xl * f xr < 0 ∧ f r.xl * f r.xr < 0 ∧ xl ≤ r.xl ∧ r.xr ≤ xr ∧ r.xl < r.xr ∧
+      ∃ j : Nat, j ≤ (cfg.maxIter - iter0).toNat ∧ (r.xr - r.xl) * 2 ^ j = xr - xl ∧ r.iter = iter0 + j + 1 ∧
+        ((r.st = .ok ∧ r.x = (r.xl + r.xr) / 2 ∧ (f r.x = 0 ∨ r.xr - r.xl < bisTol cfg r.xl r.xr r.x ∨ |f r.x| < cfg.residTol)) ∨
+         (r.st = .enohalt ∧ j = (cfg.maxIter - iter0).toNat ∧ r.x = 0))) := by
+  simp only []
+  unfold rootBisection
+  simp only []
+  by_cases h : 0 ≤ f xl * f xr
+  · have : Num.geb (f xl * f xr) (Num.zero : ℝ) = true := by rw [geb_r, zero_r]; exact h
+    simp only [this, if_true]
+    exact Or.inl ⟨h, trivial⟩
+  · have : Num.geb (f xl * f xr) (Num.zero : ℝ) = false := by
+      rw [Bool.eq_false_iff]; intro hc; rw [geb_r, zero_r] at hc; exact h hc
+    simp only [this, Bool.false_eq_true, if_false]
+    exact Or.inr ⟨not_le.1 h, bisectionLoop_spec cfg f _ iter0 xl xr hlt (not_le.1 h)⟩
+
+example : (-1 : ℝ) < 1 ∧ (fun x : ℝ => x) (-1) * (fun x : ℝ => x) 1 < 0 := by norm_num
+
+/-- `esl_root_NewtonRaphson`, every function, configuration and numeric class: total (at most `max_iter - R->iter` steps); eslOK exactly through
+    the stopping rule (`f(x) == 0`, or `|x - x0|` below the step threshold, or `|f(x)| < residual_tol`), otherwise eslENOHALT. -/
+theorem newton_root_total_documented_status {α : Type} [Num α] (cfg : RootCfg α) (fdf : α → α × α) (iter0 : Int) (x0 guess : α) :
+    let r := rootNewton cfg fdf iter0 x0 guess
+    (r.st = .ok ∧ (Num.eqb (fdf r.x).1 Num.zero = true ∨
+        (Num.ltb (Num.abs (r.x - r.xl)) (newtonTol cfg r.x) || Num.ltb (Num.abs (fdf r.x).1) cfg.residTol) = true)) ∨
+    (r.st = .enohalt ∧ r.iter = iter0 + (cfg.maxIter - iter0).toNat + 1) :=
+  rootNewton_status cfg fdf iter0 x0 guess
+
+/-- **Bisection succeeds wherever the root lies** (ℝ, any function; the repair 8354c02 removed the implicit "root must be positive" condition):
+    `abs_tolerance > 0`, `rel_tolerance ≥ 0`, `xl < xr` with a sign change, and enough rounds left that `xr - xl < abs_tolerance·2^k`
+    (`k + 1 ≤ max_iter - R->iter`; 100 rounds and 1e-12 cover every bracket narrower than 6·10¹⁷) ⇒ eslOK, `*ret_x` is the midpoint of a
+    sub-bracket of `[xl, xr]` across which `f` still changes sign. -/
+theorem bisection_converges (cfg : RootCfg ℝ) (f : ℝ → ℝ) (iter0 : Int) (xl xr : ℝ) (k : Nat) (ha : 0 < cfg.absTol) (hr : 0 ≤ cfg.relTol)
+    (hlt : xl < xr) (hs : f xl * f xr < 0) (hk : (cfg.maxIter - iter0).toNat = k + 1) (hw : xr - xl < cfg.absTol * 2 ^ k) :
+    let r := rootBisection cfg f iter0 xl xr
+    r.st = .ok ∧ r.x = (r.xl + r.xr) / 2 ∧ xl ≤ r.xl ∧ r.xr ≤ xr ∧ r.xl < r.xr ∧ f r.xl * f r.xr < 0 := by
+  have hb := bisection_keeps_root_bracketed cfg f iter0 xl xr hlt
+  simp only [] at hb ⊢
+  have hok : (rootBisection cfg f iter0 xl xr).st = .ok := by
+    unfold rootBisection
+    simp only []
+    have : Num.geb (f xl * f xr) (Num.zero : ℝ) = false := by
+      rw [Bool.eq_false_iff]; intro hc; rw [geb_r, zero_r] at hc; linarith
+    simp only [this, Bool.false_eq_true, if_false]
+    rw [hk]
+    exact bisectionLoop_converges cfg f ha hr k iter0 xl xr _ _ hw
+  rcases hb with ⟨h1, _⟩ | ⟨_, a, b, c, d, j, _, _, _, hcase⟩
+  · exfalso; linarith
+  · rcases hcase with ⟨_, hx, _⟩ | ⟨he, _, _⟩
+    · exact ⟨hok, hx, b, c, d, a⟩
+    · rw [hok] at he; cases he
+
+example : (0 : ℝ) < (RootCfg.default : RootCfg ℝ).absTol ∧ (0 : ℝ) ≤ (RootCfg.default : RootCfg ℝ).relTol := by
+  constructor <;> (simp only [RootCfg.default]; norm_num)
+
+/-- regression theorem for 8354c02, exact arithmetic: `x² - 2` on `[-3,-1]` converges exactly as on `[1,3]` (mirror-image roots) -/
+theorem bisection_negative_root_regression :
+    (rootBisection (RootCfg.default : RootCfg ℚ) sq2 0 (-3) (-1)).st = .ok ∧
+    (rootBisection (RootCfg.default : RootCfg ℚ) sq2 0 1 3).st = .ok ∧
+    (rootBisection (RootCfg.default : RootCfg ℚ) sq2 0 (-3) (-1)).x = -(rootBisection (RootCfg.default : RootCfg ℚ) sq2 0 1 3).x :=
+  bisection_negative_root_converges
+
+/-- **`bracket()` post-condition** (ℝ; any line function `t ↦ f(ori + t·d)`, any non-zero first step, any `brack_maxiter`): a returned triplet has
+    `a < b < c`, carries the function values at those abscissae, `f(b) ≤ f(a)`, `f(b) ≤ f(c)`, and `f(b) ≤ f(0)` — the middle point is never
+    worse than the point the line search starts from. (No result ⇒ eslENORESULT after `brack_maxiter + 1` rounds; total by the cap.) -/
+theorem bracket_postcondition (cfg : MinCfg ℝ) (fline : ℝ → ℝ) (firststep : ℝ) (hfs : firststep ≠ 0) (b : Bracket ℝ)
+    (h : bracketCG cfg fline (fline 0) firststep = some b) :
+    b.ax < b.bx ∧ b.bx < b.cx ∧ (b.fa = fline b.ax ∧ b.fb = fline b.bx ∧ b.fc = fline b.cx) ∧
+    b.fb ≤ b.fa ∧ b.fb ≤ b.fc ∧ b.fb ≤ fline 0 :=
+  bracketCG_spec cfg fline firststep hfs b h
+
+/-- **`brent()` descends from ITS start point** (ℝ; any line function, any interval and tolerances): the returned `fx` is the line function at the
+    returned abscissa and `fx ≤ f(a + c·(b-a))`, the golden-section point the search starts from. That point is not `bracket()`'s `bx`. -/
+theorem brent_descends_from_its_start (cfg : MinCfg ℝ) (fline : ℝ → ℝ) (a b x fx : ℝ) (h : brentCG cfg fline a b = some (x, fx)) :
+    fx = fline x ∧ fx ≤ fline (a + goldC * (b - a)) :=
+  brentCG_descent cfg fline a b x fx h
+
+/-- what happens on NaN/∞ input (the non-termination repaired in bad2f4e), every numeric class: a non-finite interval midpoint or start point
+    ends `brent()` at once with `fx = +inf` (which `esl_min_ConjugateGradientDescent` turns into eslERANGE). -/
+theorem brent_nonfinite_interval_exits {α : Type} [Num α] (cfg : MinCfg α) (fline : α → α) (a b : α)
+    (h : Num.isFinite ((0.5 : α) * (a + b)) = false ∨ Num.isFinite (a + goldC * (b - a)) = false) :
+    brentCG cfg fline a b = some (a + goldC * (b - a), Num.one / Num.zero) :=
+  brent_nonfinite_exit cfg fline a b h
+
+/-- **`*opt_fx` is the objective at the returned point**: whenever `esl_min_ConjugateGradientDescent` answers eslOK or eslENOHALT, `fx = f(x)`
+    — every objective, gradient, configuration, start point, and every numeric class in which `1/0` tests non-finite (binary64) or in which
+    nothing is non-finite (ℝ, ℚ). (`max_iterations < 1`: `f(x0)` since 6da6a89; before, an uninitialised stack slot.) -/
+theorem cg_value_is_objective_at_result {α : Type} [Num α] (hinf : InfOK α) (cfg : MinCfg α) (f : Array α → α)
+    (df : Option (Array α → Array α)) (x0 : Array α) (st : St) (x : Array α) (fx : α)
+    (h : (cgd cfg f df x0).1 = .res st x fx) (hst : st = .ok ∨ st = .enohalt) : fx = f x :=
+  cgd_value hinf cfg f df x0 st x fx h hst
+
+example : InfOK ℝ := infOK_r
+
+/-- **DESCENT IS NOT A PROPERTY OF THE CODE.** Exact arithmetic, default configuration: started at the global minimiser `0` of the needle
+    `f(0) = 0, f(x) = 1 + 2x (x > 0), 1 - x (x < 0)`, `esl_min_ConjugateGradientDescent` returns eslOK with `fx > f(x0)`. What IS proved:
+    `bracket_postcondition` (`f(bx) ≤ f(start)`) and `brent_descends_from_its_start`; the gap is that `brent()` restarts from the golden-section
+    point of `[ax, cx]` instead of `bx`. Reproduced bit-for-bit by the C code (corpus `cgd-not-a-descent-method`). -/
+theorem cg_is_not_a_descent_method : cgWorse (cgd (MinCfg.null : MinCfg ℚ) needle1 none #[0]).1 (needle1 #[0]) = true :=
+  cgd_needle_worse_than_start
 
 /-- over ℝ, `esl_vec_DMin` is the smallest observation (non-empty data) -/
 theorem cg_fit_location_is_minimum (xs : Array ℝ) (hn : 0 < xs.size) : vmin xs ∈ xs.toList ∧ ∀ x ∈ xs.toList, vmin xs ≤ x := by
